@@ -8,7 +8,8 @@ Cmds == <<
   C("cpp_member", <<"@", "C", "int">>),
   C("function", <<"@", "self", "a">>),
   C("endfunction", <<>>),
-  C("other", <<"hi">>)
+  C("other", <<"hi">>),
+  C("cmake_parse_arguments", <<"x", "\"\"", "\"\"", "\"\"">>)      \* keyword arguments of an (undocumented) definition
 >>
 Pre == <<>>
 MCPats == [f |-> FALSE, m |-> FALSE, x |-> FALSE]
